@@ -260,7 +260,8 @@ for kind, what in C02_KINDS:
                 role=kind)
 SEND_KINDS = ["send_call of Call<Empty> with 3 symbolic flags", "send_reply of Reply<()> with symbolic continues", "send_error of an empty error object"]
 # send_* = `enqueue; flush().await` (a 2-deep nest). In the small build (grow-and-retry loop in the formula) symbolic execution does
-# not finish in 20 min; in the 128/128 build (no growth) it does, like Chain::send in C06.
+# not finish in 20 min; the three fresh-connection instances in the 128/128 build also hit their 25 min cap in the last full
+# thorough run (Chain::send, which C06 decides, is the same nest without the FILL-pattern buffer): kept, reported INCONCLUSIVE.
 for (L, P) in ((128, 0),):   # from a non-empty buffer (pos=20) there was no verdict in 25 min / 10 GB
     for kind in range(3):
         add("C02", "p02::send_%s_l%d_p%03d" % (["call", "reply", "error"][kind], L, P), T, 1500, 12, est_gb=8, build="mid",
